@@ -646,8 +646,13 @@ impl Regex {
         Self::new_options(options)
     }
 
-    fn new_options(options: RegexOptions) -> Result<Regex> {
-        let raw_tree = Expr::parse_tree(&options.pattern)?;
+    fn new_options(mut options: RegexOptions) -> Result<Regex> {
+        // Case-insensitivity is tracked by our own parser, so that it also applies to the
+        // parts of the pattern that the VM interprets itself and so that `(?-i:...)` keeps
+        // working; delegated parts then carry explicit `(?i:...)` groups.
+        let case_insensitive = options.syntaxc.get_case_insensitive();
+        options.syntaxc = options.syntaxc.case_insensitive(false);
+        let raw_tree = Parser::parse_with_flags(&options.pattern, case_insensitive)?;
 
         // wrapper to search for re at arbitrary start position,
         // and to capture the match bounds
